@@ -41,7 +41,8 @@ def gen_cases(tier, seed):
         lats, lons = (-85.0, -30.0, 0.0, 60.0, 85.0), (-170.0, 10.0 + ph)
         pitches, rolls = (-85.0, -40.0, 0.0, 40.0 + ph, 85.0), (-170.0, -30.0, 0.0, 100.0 + ph)
         heads, vels = (-135.0, 0.0, 60.0 + ph, 179.0 - ph), (0, 1, 2)
-    V = [(0.0, 0.0, 0.0), (30.0, -40.0, 5.0), (-200.0, 200.0, -20.0)]
+    # fractional values: an integer-valued lattice would hide a truncation to an integer dtype
+    V = [(0.0, 0.0, 0.0), (30.25, -40.6, 5.3), (-200.7, 200.4, -20.9)]
     return [dict(pva=[la, lo, 1200.0, *V[v], r, p, h]) for la, lo, p, r, h, v in
             itertools.product(lats, lons, pitches, rolls, heads, vels)]
 
@@ -91,6 +92,20 @@ def run_case(case):
         To_df = em.transform_to_output(pva.to_frame().T)
         if To_df.shape != (1, 9, n) or (To_df[0] != To).any():
             v('c05-forms', 'transform_to_output of a one-row DataFrame differs from the Series form')
+        # ... and a three-row table against its rows one by one (both directions)
+        pva_b = pva.copy()
+        pva_b[['VN', 'VE', 'VD']] = pva_b[['VN', 'VE', 'VD']].values * -0.37 + 0.21
+        pva_b['heading'] = (pva_b['heading'] + 11.3 + 180.0) % 360.0 - 180.0
+        pva_b.name = 4.0
+        tab = pd.DataFrame([pva, pva_b, pva])
+        for fn_name in ('transform_to_output', 'transform_to_internal'):
+            fn = getattr(em, fn_name)
+            stacked = fn(tab)
+            rows = [fn(pva), fn(pva_b), fn(pva)]
+            if stacked.shape != (3,) + rows[0].shape or any((stacked[i_] != rows[i_]).any() for i_ in range(3)):
+                v('c05-forms', '%s of a three-row table differs from the row-by-row results (with_altitude=%s)' % (fn_name, wa))
+            if not wa and fn_name == 'transform_to_output' and ((stacked[:, 2] != 0.0).any() or (stacked[:, 5] != 0.0).any()):
+                v('c05-2d-rows-nonzero', 'down / VD rows of transform_to_output (table form) are not exactly zero in 2D')
         # (iv) exact zeros in 2D
         if not wa:
             if (To[2] != 0.0).any() or (To[5] != 0.0).any():
